@@ -121,8 +121,9 @@ def optsOfJ (j : J) : Option Opts := do
   let excP ← optPredOfJ (j.get? "exclude_p")
   let ksP ← optPredOfJ (j.get? "key_style_p")
   let unP ← optPredOfJ (j.get? "uncollapse_p")
+  let hideP ← optPredOfJ (j.get? "hide_p")
   pure { keyColor := kc, highlight := hl, lowlight := ll,
-         includeP := incP, excludeP := excP, keyStyleP := ksP, uncollapseP := unP,
+         includeP := incP, excludeP := excP, keyStyleP := ksP, uncollapseP := unP, hideP := hideP,
          top := { title := title, cssClasses := css, summaryColor := sc },
          enableSummary := es, enableSummaryForStr := esfs, maxSummaryLenForStr := maxl,
          enableSummaryTooltip := est, enableKeyTooltip := ekt, keyStyle := ks, collapseLevel := cl,
